@@ -14,9 +14,10 @@ use crate::sut::{self, fmt_hits, Hits, Model};
 
 pub const PROPS: [&str; 10] = ["C01", "C06", "C07", "C10", "C12", "C16", "C17", "C18", "C19", "C20"];
 
-pub const FAULT_KINDS: [&str; 12] = [
+pub const FAULT_KINDS: [&str; 13] = [
     "scratch_reset", "scratch_pollute", "migrate", "capacity_knob", "clear_readd", "cache_prime",
     "limit_swing", "repeat", "destroy_recreate", "reorder", "drop_to_pair", "long_short_alternation",
+    "preempt_mid_call",
 ];
 pub const F_RESET: usize = 0;
 pub const F_POLLUTE: usize = 1;
@@ -30,6 +31,7 @@ pub const F_DESTROY_RECREATE: usize = 8;
 pub const F_REORDER: usize = 9;
 pub const F_DROP_TO_PAIR: usize = 10;
 pub const F_LONG_SHORT: usize = 11;
+pub const F_PREEMPT: usize = 12;
 
 pub const PROBE_NAMES: [&str; 8] = [
     "matrix_grow", "top_cache_hit", "top_cache_fill", "limitsort_truncate", "split_record", "split_query", "index_capped", "jaccard_grow",
@@ -551,7 +553,7 @@ impl<'a> Exec<'a> {
             Op::RCreate { .. } | Op::RDestroy { .. } | Op::RAdd { .. } | Op::RLimit { .. } | Op::RMarkers { .. } | Op::RSearch { .. } | Op::RRead { .. } => {
                 self.do_registry(ix, op);
             }
-            Op::Dist { .. } | Op::Jacc { .. } | Op::WMatch { .. } | Op::Burst { .. } | Op::JCheck { .. } | Op::JBurst { .. } => {
+            Op::Dist { .. } | Op::Jacc { .. } | Op::WMatch { .. } | Op::Burst { .. } | Op::JCheck { .. } | Op::JBurst { .. } | Op::Preempt { .. } => {
                 #[cfg(feature = "hooks")]
                 crate::scratch::step(self, ix, op);
             }
